@@ -1023,6 +1023,12 @@ def run(ctx):
     r6_lattice_executed(ctx, sym)
     r7_type_names_total(ctx, sym)
     r8_variable_type_follows_assignment(ctx, sym)
+    # R9: a flagged operation reaches the result: TifaCore._issue records every issue it is given, also in a second
+    # analysis by the same TIFA object (shared with C09.R6)
+    from .c09 import AbstractTifa, r6_issue_recording
+    from .c12 import run_as
+    at = AbstractTifa(ctx, sym)
+    run_as(ctx, 'R6', 'R9', lambda: r6_issue_recording(ctx, sym, at), "issue recording (shared with C09.R6): ")
     ctx.assume("representative values per core type are a frozen list (REPS); CPython's operator module is the "
                "oracle and runs builtins only, never pedal")
     ctx.assume("expression trees deeper than one operator are covered through compositionality of the table only")
